@@ -236,6 +236,12 @@ def loop_events(f, blocks):
             roots = [x for x in facts.walk(e) if x[0] in ('param', 'var') and x[1] < len(f.locals)]
             ty = ty + ' IterMut ' + ' '.join(f.locals[x[1]]['ty'] for x in roots)
         calls = {short(p) for bi, tt, p in f.calls() if bi in body and bi != h}
+        # the element type may be a type parameter (`IterMut<C>` with `C: ChanceRecurse` in a generic state struct): then
+        # the trait of the method called on the elements tells what table this is
+        via = ' '.join((tt['callee'].get('trait') or '') + ' ' + (tt['callee'].get('def') or '') + ' ' + (tt['callee'].get('path') or '')
+                       for bi, tt, p in f.calls() if bi in body and bi != h and short(p) in ('advance', 'reset'))
+        if not any(x in ty for x in CHANCE_TYS + PLAYER_TYS) and 'IterMut' in ty:
+            ty = ty + ' ' + via
         if any(x in ty for x in CHANCE_TYS) and calls & {'advance', 'reset'}:
             out.append((h, 'R:chance', e))
         elif any(x in ty for x in PLAYER_TYS) and 'advance' in calls:
